@@ -568,6 +568,18 @@ theorem rinv_step (cfg : Cfg) {st : St} (e : Ev) (hok : okAt st e) (h : RInv st)
       · exact h
       · exact rinv_applyBegin cfg h
     · exact h
+  case applyGetFail =>
+    split
+    · split
+      · exact h
+      · apply rinv_same h <;> (unfold doApplyGetFail ignoreMsg ackTo; (repeat' split) <;> rfl)
+    · exact h
+  case applyNoRows =>
+    split
+    · split
+      · exact h
+      · apply rinv_same h <;> (unfold doApplyNoRows; (repeat' split) <;> rfl)
+    · exact h
   case appendBad =>
     split
     · split
